@@ -69,6 +69,7 @@ PROBES = [
     "multichannel_select", "too_short_utterance", "zero_length_utterance", "yaml_config", "json_file_config",
     "workers_sim", "si_computer", "include_energy_empty", "kaldi_default_channel0", "order_probe",
     "utterance_longer_than_2_20", "same_process_config_rewritten", "silent_stretch", "id_starting_with_hash",
+    "fresh_interpreter_other_hashseed", "nan_sample",
 ]
 FAULT_KINDS = ["poison_min_duration", "poison_rate_mismatch", "poison_channel_range"]
 
@@ -137,7 +138,8 @@ def generate(rng, tier, k):
         if rng.random() < 0.3:
             post.append({"name": "deltas", "num_deltas": 1})
     if tool == "torch":
-        corpus = world.gen_corpus(rng, nutt, allow_multi=rng.random() < 0.4, short_ok=not post, hash_ids=True)
+        corpus = world.gen_corpus(rng, nutt, allow_multi=rng.random() < 0.4, short_ok=not post, hash_ids=True,
+                                  nan_ok=not post and not pre)
     else:
         corpus = world.gen_corpus(rng, nutt, allow_multi=rng.random() < 0.4, containers=("wav",), short_ok=not post)
         for u in corpus:
@@ -183,6 +185,12 @@ def generate(rng, tier, k):
                      "num_workers": rng.choice((0, 0, 1, 2, 3)) if tool == "torch" else 0,
                      "schedule": [rng.randrange(8) for _ in range(3 * nutt)]})
     scn = {"tool": tool, "corpus": corpus, "cfg": cfg, "pre": pre, "post": post, "args": args, "runs": runs}
+    if rng.random() < 0.015 and seed is not None:
+        # both runs in fresh interpreters with different string-hash salts (separate invocations of the command)
+        for i, r in enumerate(runs):
+            r["cold"] = True
+            r["hashseed"] = rng.randrange(1, 4000) + 4000 * i
+            r["num_workers"] = 0
     if cfg is not None and rng.random() < 0.12:
         # the tool has already been run in this process with the SAME configuration file names holding another
         # configuration (a long-lived driver script that rewrites its config files between calls)
@@ -390,7 +398,8 @@ def _run(scn, d, res, tr):
                  "schedule": run.get("schedule", [])}
         if tool == "torch" and run.get("num_workers", 0) > 0:
             res.probe("workers_sim")
-        if scn.get("warm_cfg") is not None and run["syntax"] != "inline" and scn.get("cfg") is not None:
+        if scn.get("warm_cfg") is not None and run["syntax"] != "inline" and scn.get("cfg") is not None \
+                and not run.get("cold"):
             # first an invocation with another configuration under the same file names, then the files are rewritten
             res.probe("same_process_config_rewritten")
             stem = "computer_" + outname
@@ -400,7 +409,11 @@ def _run(scn, d, res, tr):
                                                                    and "computer_" not in a and "pre_" not in a
                                                                    and "post_" not in a) else a for a in argv]
             knobs["pre_runs"] = [{"argv": warm_argv, "rewrite": {cfg_path: final_text}}]
-        r = child.run_tool(tool, argv, d, None, knobs)
+        if run.get("cold"):
+            res.probe("fresh_interpreter_other_hashseed")
+            r = child.run_tool_cold(tool, argv, d, run["hashseed"], knobs["ambient_seed"])
+        else:
+            r = child.run_tool(tool, argv, d, None, knobs)
         exc = [u for n, u, c in r["events"] if n == "exception"]
         tr.log("run", ri, r["exit"], exc)
         expect_exit = 0 if (keep or tool == "torch") else 1
@@ -438,6 +451,8 @@ def _run(scn, d, res, tr):
                 x = world.make_signal(u)
                 if u.get("silence"):
                     res.probe("silent_stretch")
+                if u.get("nan_at") is not None:
+                    res.probe("nan_sample")
                 if u["id"].startswith("#"):
                     res.probe("id_starting_with_hash")
                 ch = a.get("channel", -1)
